@@ -288,6 +288,7 @@ impl Verb {
 			Self::ToUpper |
 			Self::ToggleCaseRange |
 			Self::ToggleCaseInplace(_) |
+			Self::Rot13 |
 			Self::Put(_) |
 			Self::ReplaceMode |
 			Self::InsertModeLineBreak(_) |
